@@ -226,7 +226,50 @@ def check_spec(ctx, spec, points, record=True):
     ctx.sample({"spec": spec, "point": {k: str(v) for k, v in points[0]["x"].items()}})
 
 
+def lineage_interface_rates(ctx):
+    """the lineage simulators read the stochastic + volume rate through their own plain and safe interface (no probe there):
+    the chance that a reaction with repeated reactants has fired by time T in a single-cell run is 1 - exp(-rate T) with
+    rate = k s(s-1).../V^(r-1) while nothing else can happen (binomial sampling error, 6.5 standard deviations)."""
+    import math
+    import numpy as np
+    from bioscrape.lineage import LineageModel, LineageVolumeCellState, LineageCSimInterface, SafeLineageCSimInterface, LineageSSASimulator
+    from bioscrape.random import py_seed_random
+    n = 1200 if ctx.quick() else 20000
+    for name, reac, x0, V, k, T_end in (("A + A --> B", ["A", "A"], {"A": 2, "B": 0, "C": 0}, 1.0, 1.0, 0.35),
+                                       ("A + A + C --> B", ["A", "A", "C"], {"A": 2, "B": 0, "C": 3}, 2.0, 1.0, 0.45),
+                                       ("A + A + A --> B", ["A", "A", "A"], {"A": 4, "B": 0, "C": 0}, 1.5, 0.05, 0.5)):
+        M = LineageModel(species=["A", "B", "C"], parameters={"k": k}, reactions=[(reac, ["B"], "massaction", {"k": "k"})], initial_condition_dict=x0)
+        M.py_initialize()
+        rate = k
+        for s_ in sorted(set(reac)):
+            for j in range(reac.count(s_)):
+                rate *= max(x0[s_] - j, 0)
+        rate /= V ** (len(reac) - 1)
+        p = 1 - math.exp(-rate * T_end)
+        for safe in (False, True):
+            case = {"scenario": "lineage interface rate", "reaction": name, "state": x0, "V": V, "k": k, "T": T_end, "safe": safe, "runs": n}
+            ctx.begin_case(case)
+            I = (SafeLineageCSimInterface if safe else LineageCSimInterface)(M)
+            sim = LineageSSASimulator()
+            fired = 0
+            for i in range(n):
+                py_seed_random(424242 + 7 * i + ctx.seed)
+                v = LineageVolumeCellState(v0=V, t0=0.0, state=np.array([float(x0[q]) for q in M.get_species_list()]))
+                r = sim.py_SimulateSingleCell(np.array([0.0, T_end]), Model=M, interface=I, v=v)
+                rows = np.array(r.py_get_result())
+                fired += int(rows[-1][M.get_species_list().index("B")] > 0)
+            ctx.evaluated(n)
+            sd = math.sqrt(p * (1 - p) / n)
+            if abs(fired / n - p) > 6.5 * sd:
+                ctx.violation("lineage-interface/rate/" + ("safe" if safe else "plain"), "%s at %s, V=%g through the %s lineage interface: fired by T=%g in %.3f of %d runs, "
+                              "the documented rate %g gives %.3f +- %.3f" % (name, x0, V, "safe" if safe else "plain", T_end, fired / n, n, rate, p, 6.5 * sd),
+                              dict(case, observed=fired / n, expected=p))
+                return
+            ctx.count("lineage_interface_rate_cases")
+
+
 def run(ctx):
+    lineage_interface_rates(ctx)
     npts = 4 if ctx.quick() else 12
     for spec in gen_models(ctx):
         pts = gen_points(ctx.rng, npts)
@@ -235,6 +278,9 @@ def run(ctx):
 
 def replay(ctx, obj):
     rep = obj.get("replay") or obj["broken"][0]["detail"]
+    if rep.get("scenario") == "lineage interface rate":
+        lineage_interface_rates(ctx)
+        return
     spec = rep["spec"]
     pt = rep.get("point")
     if isinstance(pt, dict):
@@ -248,7 +294,8 @@ def describe(ctx):
     rule = ("mass action: every ordered reactant list of length 0..4 over 3 species (121 lists, exhaustive) x species "
             "declaration orders x integer states 0..6 (incl. below multiplicity) and dyadic real states x dyadic k x V; "
             "Hill x4 types x integer/fractional exponents; mixed 2-4 reaction models; each evaluated in 4 modes at the bare "
-            "object, the plain and the safe interface. A case is non-trivial when its closed form is non-zero or the "
+            "object, the plain and the safe interface; the lineage module's plain and safe interface statistically (firing "
+            "probability of reactions with repeated reactants in single-cell runs). A case is non-trivial when its closed form is non-zero or the "
             "state is below the multiplicity; distinct = (type, order, max multiplicity, mode, below/enough, zero/pos).")
     return rule, {"modes": MODES, "observation_points": ["Propensity object", "ModelCSimInterface", "SafeModelCSimInterface"]}, False, [
         "pow() accuracy and overflow of products are outside the proof (Float/R gap)"]
